@@ -57,6 +57,10 @@ PROFILES = {
   "con": gen.profile(nbody=(3, 8), collide=True, contact_rich=True, p_plane=0.7, equality=3, p_limit=0.5, p_frictionloss=0.4, tendon_fixed=0.5, tendon_spatial=0.3, cones=("pyramidal", "elliptic"), solvers=("Newton", "CG"), jacobians=("dense", "sparse"), actuators=2, sensors=4, sensor_kinds=("jointpos", "jointvel", "framepos", "framequat", "accelerometer", "touch", "actuatorfrc", "subtreecom", "clock"), delays=0.4, nuserdata=3, p_mocap=0.2),
 }
 
+# no collidable geoms: every constraint row is a limit / friction / equality row, so the default njmax_nnz estimate is not
+# dominated by its contact term
+PROFILES["nocol"] = gen.profile(nbody=(3, 9), collide=False, equality=2, p_limit=0.8, p_frictionloss=0.4, tendon_fixed=0.5, tendon_spatial=0.3, solvers=("Newton", "CG"), jacobians=("sparse", "dense", "sparse"), cones=("pyramidal", "elliptic"))
+
 MODEL_SKIP = {}  # field -> reason (none needed on the observed tree)
 OPT_SKIP = {"tolerance": "clamped to >= 1e-6 by put_model (documented)"}
 
@@ -85,7 +89,7 @@ def cases(tier, seed):
     for r in range(1 if tier == "quick" else 4):
       out.append({"id": f"repodata{seed}_{k}_{r}", "kind": "data", "path": p, "seed": seed * 100000 + 950 + 10 * k + r, "weight": 2})
   for i in range(nd):
-    out.append({"id": f"data{seed}_{i}", "kind": "data", "profile": ("col", "con")[i % 2], "seed": seed * 100000 + 2000 + i, "weight": 2})
+    out.append({"id": f"data{seed}_{i}", "kind": "data", "profile": ("col", "con", "col", "con", "nocol")[i % 5], "seed": seed * 100000 + 2000 + i, "weight": 2})
   for i, name in enumerate(REJECTS):
     out.append({"id": f"reject{seed}_{name}", "kind": "reject", "feature": name, "seed": seed * 100000 + 5000 + i})
   return out
@@ -254,8 +258,13 @@ def _run_data(case, rec):
   nworld = int(rng.integers(1, 4))
   try:
     d = mjw.put_data(mjm, mjd, nworld=nworld)
-  except (NotImplementedError, ValueError) as e:
+  except NotImplementedError as e:
     rec.rejected = f"put_data: {e}"[:200]
+    return
+  except ValueError as e:
+    # all capacities are put_data's own defaults here: a valid MjData must fit them
+    rec.check()
+    rec.viol("put_data:raises-with-default-capacities", f"put_data(mjm, mjd, nworld={nworld}) with default capacities raises ValueError: {e} (ncon {mjd.ncon} nefc {mjd.nefc} sparse {bool(m.is_sparse)})")
     return
   Jref = _dense_J(mjm, mjd)
   for w in range(nworld):
